@@ -63,6 +63,7 @@ func FactsOf(fn *ssa.Function) *FuncFacts {
 				if first {
 					continue // all preds TOP
 				}
+				closePhiFacts(ff, in)
 				// drop stale facts
 				for c := range in {
 					if ins, ok := c.(ssa.Instruction); ok {
@@ -81,6 +82,52 @@ func FactsOf(fn *ssa.Function) *FuncFacts {
 		}
 	}
 	return ff
+}
+
+// closePhiFacts: the lowering of `a && b` / `a || b` yields a boolean phi with constant edges. A known
+// value of the phi that excludes all constant edges but one implies that the remaining edge was taken:
+// its value has the phi's value and everything known at the end of that predecessor holds as well.
+func closePhiFacts(ff *FuncFacts, in FactSet) {
+	for round := 0; round < 4; round++ {
+		added := false
+		for c, pol := range in {
+			ph, ok := c.(*ssa.Phi)
+			if !ok || !isBool(ph.Type()) {
+				continue
+			}
+			possible := -1
+			n := 0
+			for i, e := range ph.Edges {
+				if b, isC := constBool(e); isC && b != pol {
+					continue
+				}
+				possible = i
+				n++
+			}
+			if n != 1 {
+				continue
+			}
+			e := ph.Edges[possible]
+			if _, isC := constBool(e); !isC {
+				if _, have := in[e]; !have {
+					in[e] = pol
+					added = true
+				}
+			}
+			pred := ph.Block().Preds[possible]
+			if pin, ok := ff.In[pred]; ok {
+				for k, v := range edgeFacts(pin, pred, ph.Block()) {
+					if _, have := in[k]; !have {
+						in[k] = v
+						added = true
+					}
+				}
+			}
+		}
+		if !added {
+			return
+		}
+	}
 }
 
 func edgeFacts(pin FactSet, p, s *ssa.BasicBlock) FactSet {
